@@ -158,6 +158,7 @@ structure Choice where
   fresh : T := 0              -- the identity of the new Tx
   found : Bool := false       -- look: a pop returned an element
   wake  : Bool := false       -- the select in blockingPop: woken (true) or timed out
+  flushOk : Bool := true      -- Writer.Flush: the write to the socket succeeded
 deriving Repr, Inhabited
 
 /-- start of the deferred calls of the closure: gate-out / Unlock if registered, then the recover function -/
@@ -375,8 +376,11 @@ def tstep (s : Shared) (t : Tid) (l : Loc) (ch : Choice) : Out :=
     let werr := cs.werr || l.panicking
     let cs := { cs with werr := werr, err := cs.err || (werr && !cs.none?) }
     some (s.setConn t cs, { l with pc := .flush, panicking := false }, [])
-  | .flush => -- c.Flush(): w.err = false
-    some (s.setConn t { cs with werr := false }, { l with pc := .idle }, [])
+  | .flush => -- c.Flush(): `if err != nil { return err }; w.w = 0; w.err = false` - a failed write (the peer has gone;
+              -- handleConn ignores the result and goes on with the commands it has already read) leaves `w.err` as it
+              -- is: a stale error flag marks the next transaction of this connection errored (dRec)
+    if ch.flushOk then some (s.setConn t { cs with werr := false }, { l with pc := .idle }, [])
+    else some (s, { l with pc := .idle }, [])
 
 /-- the whole program: shared state + the local state of every goroutine (all others are at `idle`) -/
 structure Cfg where
